@@ -19,7 +19,7 @@ from families import common
 SOURCES = ["drv_calflow.c", "caleq_oracle.c", "etermsim.c", "vt.c",
            "vt_alloc.c"]
 
-PROP_OF = {"c01": "C01", "c17": "C17", "c20": "C20"}
+PROP_OF = {"c01": "C01", "c17": "C17", "c20": "C20", "hostile": "C03"}
 
 # table parameters per tier: MAXDIM, NVAR, STRIDE, MAXHIST
 PARAMS = {
@@ -27,8 +27,12 @@ PARAMS = {
     ("c01", "thorough"): dict(MAXDIM=4, NVAR=24, STRIDE=1, MAXHIST=5),
     ("c17", "quick"):    dict(MAXDIM=3, NVAR=2, STRIDE=1, MAXHIST=5),
     ("c17", "thorough"): dict(MAXDIM=4, NVAR=8, STRIDE=1, MAXHIST=5),
-    ("c20", "quick"):    dict(MAXDIM=3, NVAR=1, STRIDE=97, MAXHIST=5),
+    ("c20", "quick"):    dict(MAXDIM=3, NVAR=1, STRIDE=131, MAXHIST=5),
     ("c20", "thorough"): dict(MAXDIM=3, NVAR=1, STRIDE=5, MAXHIST=5),
+    # calls out of order, refused / unclassified standards, partial S: for
+    # the aggregate C03 / C11 checks (issues carry C03 and C11 only)
+    ("hostile", "quick"):    dict(MAXDIM=3, NVAR=1, STRIDE=1, MAXHIST=5),
+    ("hostile", "thorough"): dict(MAXDIM=4, NVAR=1, STRIDE=1, MAXHIST=5),
 }
 
 # fields whose mismatch means that the harness oracle and the specification
@@ -356,7 +360,7 @@ def replay(ctx, exe, path, which_hint=None):
     else:
         raise vlib.MachineryError("no case id in " + path)
     sname, seed, index = cid.split(":")
-    mm = re.match(r"(c\d\d)-(\d+)-(\d+)-(\d+)-(\d+)\.script", sname)
+    mm = re.match(r"(c\d\d|hostile)-(\d+)-(\d+)-(\d+)-(\d+)\.script", sname)
     if not mm:
         raise vlib.MachineryError("cannot parse script name " + sname)
     which = mm.group(1)
